@@ -70,6 +70,8 @@ class Gen:
         if depth > 0:
             choices += ['if', 'if', 'for', 'while', 'try', 'with', 'call', 'call', 'multi', 'comp', 'ret', 'raise',
                         'lambda', 'usegen', 'usegen2', 'driveco']
+        if 'selfdisable' in self.feat and depth > 0:
+            choices += ['selfwith', 'selfwith', 'selfdis']
         if in_loop:
             choices += ['break', 'continue']
         if kind in ('gen', 'agen'):
@@ -135,6 +137,10 @@ class Gen:
             return [p + 'if x %% 5 == %d:' % r.randrange(5), p + '    return x']
         if c == 'raise':
             return [p + 'if x %% 7 == %d:' % r.randrange(7), p + '    raise ValueError(x)']
+        if c == 'selfwith':
+            return [p + 'with PROF:'] + self.stmts(i, depth - 1, ind + 4, in_loop, kind)
+        if c == 'selfdis':
+            return [p + 'PROF.disable_by_count()'] + self.stmts(i, depth - 1, ind, in_loop, kind) + [p + 'PROF.enable_by_count()']
         if c == 'lambda':
             return [p + 'h = lambda v: v + %d' % r.randrange(5), p + 'x = h(x)']
         if c == 'break':
@@ -256,7 +262,8 @@ def make_program(rnd, features, threads=False):
                     start = k
             nm = 'u%d' % i
             fl = list(funcs[i])
-            fl[0] = fl[0].replace('f%d(' % i, nm + '(', 1)
+            # the twin keeps the NAME f<i> in its own file (value-equal code object up to the file name);
+            # the driver executes that file in its own namespace and binds it as u<i> for main()
             shift = rnd.choice([0, 0, 1, 3])
             pre = ['# twin file'] + PRELUDE.strip('\n').split('\n')
             other = pre + [''] * (start - len(pre) + shift) + fl + ['']
@@ -291,7 +298,18 @@ def make_program(rnd, features, threads=False):
         raise AssertionError(k)
 
     nreg = rnd.randrange(1, len(names) + 1)
-    for nm in rnd.sample(names, nreg):
+    regnames = rnd.sample(names, nreg)
+    if 'addmod' in features:
+        # register through add_module: the functions of each file as one module object
+        main_names = [x for x in regnames if not x.startswith('u')]
+        twin_names = [x for x in names if x.startswith('u')]
+        if main_names:
+            m.append('    P.addmod(%r)' % (main_names,))
+        if twin_names:
+            m.append('    P.addmod(%r)' % (twin_names,))
+        registered += main_names + twin_names
+        regnames = []
+    for nm in regnames:
         if rnd.random() < 0.5:
             m.append('    P.reg(%r)' % nm)
             registered.append(nm)
@@ -313,6 +331,15 @@ def make_program(rnd, features, threads=False):
         else:
             m += body            # only decorated functions are profiled here
         m.append('    P.snap()')
+        gens_ = [x for x in names if kinds[x] == 'gen']
+        if 'straddle' in features and gens_:
+            nm = rnd.choice(gens_)
+            a = '%d, %d' % (rnd.randrange(0, 12), rnd.randrange(0, 4))
+            m += ['    with prof:', '        sg = P.fn(%r)(%s)' % (nm, a), '        try:', '            next(sg)',
+                  '        except (StopIteration, ValueError):', '            pass',
+                  '    try:', '        next(sg)', '        sg.send(1)', '    except (StopIteration, ValueError):', '        pass',
+                  '    with prof:', '        try:', '            next(sg)', '        except (StopIteration, ValueError):', '            pass',
+                  '    try:', '        next(sg)', '    except (StopIteration, ValueError):', '        pass', '    del sg', '    P.snap()']
         if 'rereg' in features and rnd.random() < 0.6:
             nm = rnd.choice(names)
             m.append('    P.reg(%r)' % nm if rnd.random() < 0.5 else '    P.deco(%r)' % nm)
@@ -341,6 +368,7 @@ def make_program(rnd, features, threads=False):
 
 
 FEATURE_SETS = [
+    {'gen', 'straddle'}, {'selfdisable'}, {'selfdisable', 'gen'}, {'twinfile', 'addmod'},
     {'rec'}, {'gen'}, {'gen', 'rec'}, {'co'}, {'gen', 'co', 'rec', 'mutual'}, {'twins'}, {'twinfile'}, {'twins', 'twinfile', 'gen'},
     {'rereg'}, {'rereg', 'twins'}, set(), {'mutual', 'rec'},
 ]
